@@ -39,3 +39,34 @@ def c03_zero_argument_call(case, what):
     if any(n != "initial" for n in names):
         allowed.add("parse raised AttributeError on a zero-argument call")
     return what in allowed
+
+
+def _strings(t):
+    out = []
+    if isinstance(t, list):
+        if len(t) == 2 and t[0] == "str" and isinstance(t[1], str):
+            out.append(t[1])
+        else:
+            for x in t:
+                out += _strings(x)
+    return out
+
+
+def _ends_in_escaped_backslash(s):
+    n = len(s) - len(s.rstrip("\\"))
+    return n > 0 and n % 2 == 0
+
+
+@known_predicate
+def c03_string_ending_in_escaped_backslash(case, what):
+    """C03-F2: inputs of the `strtail` stream only — some string literal other than the last one in the text ends in an
+    even run of backslashes (an escaped backslash right before its closing quote) — failing as a syntax error, a
+    different value, or the model/implementation disagreement that causes."""
+    if not isinstance(case, dict) or case.get("kind") != "strtail":
+        return False
+    strs = _strings(case.get("tree"))
+    if len(strs) < 2 or not any(_ends_in_escaped_backslash(s) for s in strs[:-1]):
+        return False
+    return what in ("valid Modelica expression rejected as a syntax error",
+                    "parsed tree evaluates differently from the source text under Modelica precedence",
+                    "disagreement:ast")
